@@ -51,7 +51,7 @@ static std::vector<Ev> alphabet()
     std::vector<Ev> a;
     for (auto n : { "a", "b" })
         for (char k : { 'o', 'm', 't' })
-            for (auto g : { "", "g1", "g2" })
+            for (auto g : { "", "g1", "arguments" }) // "arguments" is also the heading of the default group
                 a.push_back({ 'D', k, n, g, "" });
     for (auto n : { "a", "b" })
         for (auto s : { "x", "y", "", "xy" })
@@ -457,7 +457,7 @@ static void wide_case(int n, int variant, int k, mc::Report& rep)
                     if (c != '-' && c != '=')
                         letters += static_cast<char>(c);
                 std::vector<void*> objs;
-                const char* groups[] = { "", "g1", "g2" };
+                const char* groups[] = { "", "g1", "arguments" };
                 auto declare = [&](no::parser& q, int i, int kind, const std::string& group) -> void* {
                     std::string name = "item" + std::to_string(i);
                     no::group& g = group.empty() ? q.group() : q.group(group);
@@ -516,7 +516,7 @@ static void wide_case(int n, int variant, int k, mc::Report& rep)
                     }
                     p->parse(1, argv0); // still unambiguous
                     // one more item with the letter of item k
-                    void* extra = declare(*p, n, 2, "g2");
+                    void* extra = declare(*p, n, 2, "arguments");
                     set_letter(extra, 2, std::string(1, letters[k]));
                     bool refused = false;
                     try
@@ -689,7 +689,7 @@ int main(int argc, char** argv)
                 wide_case(n, variant, k, rep);
     rep.counters["bound_history_depth"] = d;
     rep.counters["events"] = alpha.size();
-    rep.notes["rule"] = "32 events (declare 3 kinds x names a|b x parser|g1|g2, option ab; short_name x|y|''|'xy'; MOVE destroying / keeping the old parser; PARSE); every history of "
+    rep.notes["rule"] = "32 events (declare 3 kinds x names a|b x parser|g1|arguments (a group named like the heading of the default group), option ab; short_name x|y|''|'xy'; MOVE destroying / keeping the old parser; PARSE); every history of "
                         "length <= d without de-duplication, then BFS to a fixpoint de-duplicated on the reference state + moved "
                         "flag from each first event; probes (empty vector, every long and short spelling) at every state; "
                         "non-trivial = histories reaching a state with two items or after a MOVE";
